@@ -43,11 +43,17 @@ def all_modelled_columns():
     return cols
 
 
+LC_COLS = ['N', 'N_interp', 'index_halo', 'origin', 'pos_avg', 'pos_interp', 'vel_avg', 'vel_interp', 'redshift_interp']
+
+
 def gen(rng, tier):
     from e2_world import world as W
     from e2_world import catalog as C
-    world = W.gen_world(rng, max_slabs=2, max_halos=5, max_parts=1)
+    lc = rng.random() < 0.15
+    world = W.gen_world(rng, max_slabs=2, max_halos=5, max_parts=1, lc=lc)
     cols = all_modelled_columns()
+    if lc:
+        cols = [c for c in cols if 'L2' in c] + LC_COLS
     fields = 'all' if rng.random() < 0.5 else rng.sample(cols, rng.randrange(1, 9))
     return {'world': world, 'knobs': C.gen_knobs(rng), 'cleaned': bool(world['cleaned'] and rng.random() < 0.5),
             'fields': fields}
@@ -79,8 +85,8 @@ def run(case):
         for convert in (True, False):
             try:
                 with C.environment(knobs, out['faults'] if convert else None):
-                    cat = C.load(gd, cleaned=case['cleaned'], subsamples=False, fields=copy.deepcopy(case['fields']),
-                                 convert_units=convert)
+                    cat = C.load(gd, cleaned=case['cleaned'] or bool(world.get('lc')), subsamples=False,
+                                 fields=copy.deepcopy(case['fields']), convert_units=convert)
             except Exception as e:
                 violation(out, 'raises:' + type(e).__name__, 'CompaSOHaloCatalog', repr(e)[:300])
                 return out
@@ -130,6 +136,8 @@ def run(case):
         if any(v == x for h in hs for k, v in h['raw'].items() if k.endswith('_i16') and not isinstance(v, list)):
             bump(out['probes'], 'int16=%d' % x)
     out['events'].append(['units', len(hs), checked, case['cleaned']])
+    if world.get('lc'):
+        bump(out['probes'], 'light-cone-layout')
     out['steps'] = len(written)
     if hs:
         out['nontrivial'] = [box, V, case['cleaned'], 'all' if case['fields'] == 'all' else len(case['fields']),
